@@ -5,9 +5,9 @@ cd /verif
 PFX=${1:-}
 declare -A CHECKS=(
  [C02-1]="C17" [C02-2]="" [C05-1]="C05" [C05-2]="C05" [C06-1]="C06" [C06-2]="C06" [C08-1]="C08 C09" [C08-2]="C08 C09"
- [C09-1]="C09" [C09-2]="C09" [C10-1]="C10" [C10-2]="C10" [C12-1]="C17 C16" [C12-2]="" [C15-1]="C15" [C15-2]="C15"
+ [C09-1]="C09" [C09-2]="C09" [C10-1]="C10" [C10-2]="C10" [C12-1]="C12 C17" [C12-2]="C12" [C15-1]="C15" [C15-2]="C15"
  [C16-1]="C16" [C16-2]="C16" [C17-1]="C17" [C17-2]="C17" [C18-1]="C18" [C18-2]="C18" [C19-1]="C19" [C19-2]="C19"
- [C20-1]="C20" [C20-2]="C20"
+ [C20-1]="C20" [C20-2]="C20" [C05-3]="C05" [C05-4]="C05" [C06-3]="C06" [C06-4]="C06" [C08-3]="C08" [C08-4]="C08" [C10-3]="C10" [C10-4]="C10" [C18-3]="C16 C18" [C18-4]="C18"
 )
 for d in seeded/*/; do
   s=$(basename $d)
